@@ -389,7 +389,16 @@ func (c *Ctx) ruleIterPackages() {
 		ia := importCall.Common().Args
 		okSame := len(ia) == 2 && P.Desc(ia[0]) == impD
 		factD := P.Desc(ia[1])
-		okFact := strings.Contains(factD, "CreateEmpty")
+		// a fresh fact object per import: the value handed to ImportPackageFact is the result of a CreateEmpty() call
+		// made inside the loop
+		okFact := false
+		for _, r := range P.ResolveOpaque(ia[1]) {
+			rc, isCall := r.(*ssa.Call)
+			okFact = isCall && strings.HasSuffix(P.calleeName(rc.Common()), "CreateEmpty") && loopOf(rc.Block()) != nil
+			if !okFact {
+				break
+			}
+		}
 		okAnn := strings.Contains(P.Desc(y2.Call.Args[1]), "GetAnnotations") && strings.Contains(P.Desc(y2.Call.Args[1]), factD)
 		guarded := false
 		var extra2 []string
